@@ -70,17 +70,19 @@ def IsNone(s):
 def Bool(s):
   return True if "True" in s else False
 
-def ListofNums(s):
+def _ListItems(s):
+  """Splits the text of a list, "[1,2]", "[1, 2]" or "[1 2]", into its items."""
   # remove list brackets
   s = s.replace("[", "").replace("]", "")
-  list_s = s.split(" ")
-  return [Num(e) for e in list_s]
+  return s.replace(",", " ").split()
+
+def ListofNums(s):
+  return [Num(e) for e in _ListItems(s)]
 
 def IsListofNums(s):
-  # remove list brackets
-  s = s.replace("[", "").replace("]", "")
-  list_s = s.split(" ")
-  if len(list_s) > 1:
+  list_s = _ListItems(s)
+  # a bracketed text is a list whatever its length: "[2]", "[]"
+  if len(list_s) > 1 or (s.startswith("[") and s.endswith("]")):
     for e in list_s:
       # if any of the elements is not a number return false
       if not IsNum(e):
@@ -110,9 +112,13 @@ def GetParams(s):
   _rparen = Suppress(")")  # pylint: disable=invalid-name
   _eq = Suppress("=")  # pylint: disable=invalid-name
 
+  # a list of numbers "[1,2]" is one token: the "," inside does not end it
+  _list = r"\[[0-9eE+\-.,\s]*\]"  # pylint: disable=invalid-name
+
   data = (_lparen + Optional(
       delimitedList(
-          Group(Regex(r"[^=,)\s]+") + Optional(_eq + Regex(u"[^,)]*")))
+          Group(Regex(r"(?:" + _list + r"|[^=,)\s])+") +
+                Optional(_eq + Regex(r"(?:" + _list + r"|[^,)])*")))
           )
       ) + _rparen)
 
